@@ -4,27 +4,36 @@
 (* TLS, then activation, input, shutdown) against Rdp.tla.  The reference     *)
 (* server's log gives the order of client and server messages; every blob is  *)
 (* decoded by the wire grammar (pass A).                                      *)
-EXTENDS Rdp, TraceAct, Text
+EXTENDS Rdp, TraceAct, Text, Ntlm, X509
 
-tvars == <<allvars, l>>
+\* CredSSP state the validator derives from the wire (never from the harness): the NTLM messages,
+\* the certificate the client saw, the session contexts of both directions
+VARIABLE nla
+tvars == <<allvars, l, nla>>
+NlaInit == [neg |-> <<>>, chal |-> <<>>, cert |-> <<>>, c2s |-> <<>>, s2c |-> <<>>, unicode |-> TRUE]
+Cps(c, f) == Rec[l].cfg[f]
+
+NW == INSTANCE WireNla WITH Strict <- TRUE
 
 Num32(b4) == IF b4[4] < 128 THEN b4[1] + 256 * b4[2] + 65536 * b4[3] + 16777216 * b4[4] ELSE -1
 
 CfgOf(c) == [api |-> c.api, mask |-> c.mask, nla |-> c.nla, check |-> c.check, admin |-> c.admin, auto |-> c.auto,
              blank |-> c.blank, hash |-> c.hash, w |-> c.w, h |-> c.h,
-             domain |-> Utf16LE(c.domain), user |-> Utf16LE(c.user), password |-> Utf16LE(c.password)]
+             domain |-> Utf16LE(c.domain), user |-> Utf16LE(c.user), password |-> Utf16LE(c.password),
+             domainCps |-> c.domain, userCps |-> c.user, passwordCps |-> c.password]
 
 Trusted(ident) == ident \in {"leaf", "leaf2"}
 
 TInit == /\ l = 1 /\ act = "WaitDemandActive" /\ shareId = <<>> /\ userId = 0
          /\ out = <<>> /\ cbs = <<>> /\ inres = "none" /\ obs = ObsInit
          /\ cfg = [api |-> "none"] /\ phase = "idle" /\ offered = 0 /\ sel = 0 /\ link = "raw"
-         /\ wire = <<>> /\ joined = {} /\ srvOk = TRUE /\ result = "pending"
+         /\ wire = <<>> /\ joined = {} /\ srvOk = TRUE /\ result = "pending" /\ nla = NlaInit
 
 TReset == /\ IsEvent("reset")
           /\ cfg' = CfgOf(Rec[l].cfg) /\ offered' = OfferedOf(cfg')
           /\ phase' = "start" /\ sel' = 0 /\ link' = "raw" /\ wire' = <<>> /\ joined' = {} /\ srvOk' = TRUE /\ result' = "pending"
           /\ act' = "WaitDemandActive" /\ shareId' = <<>> /\ userId' = 0 /\ out' = <<>> /\ cbs' = <<>> /\ inres' = "none" /\ obs' = ObsInit
+          /\ nla' = NlaInit
 
 LastM == wire'[Len(wire')].m
 
@@ -60,23 +69,64 @@ TSWrite ==
         \/ d.kind = "JoinConfirm" /\ d.result = 0 /\ SJoinConfirm
         \/ d.kind = "Licence" /\ SLicence(LicenceGood(d))
 
-\* CredSSP: the client's TSRequests (round derived by WireNla from the fields present) ...
-TCDer == /\ IsEvent("c_der")
-         /\ LET d == Dec[Rec[l].blob] IN
-            /\ Rec[l].chan = link /\ d.ok /\ d.round \in 1..3
-            /\ CNla(d.round)
-\* ... and the server's answers (label TsReq*): a challenge after round 1, a pubKeyAuth after round 2
-TSDer == /\ IsEvent("s_write") /\ Rec[l].label \in {"TsReqChallenge", "TsReqPubKeyAuth"}
-         /\ LET d == Dec[Rec[l].blob] IN
-            \/ phase = "nlaWait1" /\ SNla(1, d.ok /\ d.hasNego /\ d.nego.kind = "NtlmChallenge")
-            \/ phase = "nlaWait2" /\ SNla(2, d.ok /\ d.hasPubKeyAuth /\ Rec[l].honest)
+\* CredSSP round 1: the client's NEGOTIATE
+TCDer1 == /\ IsEvent("c_der")
+          /\ LET d == Dec[Rec[l].blob] IN
+             /\ Rec[l].chan = link /\ d.ok /\ d.round = 1
+             /\ CNla(1) /\ nla' = [nla EXCEPT !.neg = d.nego.token]
+\* the server's CHALLENGE
+TSDer1 == /\ IsEvent("s_write") /\ Rec[l].label = "TsReqChallenge" /\ phase = "nlaWait1"
+          /\ LET d == Dec[Rec[l].blob] IN
+             /\ SNla(1, d.ok /\ d.hasNego /\ d.nego.kind = "NtlmChallenge")
+             /\ nla' = [nla EXCEPT !.chal = IF d.ok /\ d.hasNego THEN d.nego.token ELSE <<>>]
+\* round 2: AUTHENTICATE + pubKeyAuth.  The token must be accepted by the independent MS-NLMP verifier for
+\* the configured account (C15 in situ) and pubKeyAuth must be the SubjectPublicKey of the certificate the
+\* TLS layer presented, sealed as the first client message (C01: the key the client actually saw)
+TCDer2 == /\ IsEvent("c_der")
+          /\ LET d == Dec[Rec[l].blob] IN
+             /\ Rec[l].chan = link /\ d.ok /\ d.round = 2
+             /\ LET v == Verify(NTHash(cfg.passwordCps), nla.neg, nla.chal, d.nego) IN
+                /\ v.ok
+                /\ LET u == Unwrap(Ctx(v.exported, TRUE), d.pubKeyAuth) IN
+                   /\ u.ok /\ u.plain = SubjectPublicKey(nla.cert)
+                   /\ nla' = [nla EXCEPT !.c2s = u.ctx, !.s2c = Ctx(v.exported, FALSE), !.unicode = d.nego.unicode]
+             /\ CNla(2)
+\* the server's last TSRequest proves the session key and the certificate iff, decoded strictly, its pubKeyAuth
+\* unseals under the server-to-client keys to a value numerically equal to SubjectPublicKey + 1
+Proves(d) == /\ d.ok /\ d.hasPubKeyAuth
+             /\ LET u == Unwrap(nla.s2c, d.pubKeyAuth) IN u.ok /\ NumEq(u.plain, PlusOne(SubjectPublicKey(nla.cert)))
+\* a reply that is not DER but whose pubKeyAuth, read leniently (any definite-length BER), is an honest proof:
+\* the server did prove the key, the envelope is malformed - the property allows either outcome
+ProvesLeniently(d) == ~d.ok /\ Has(d, "lenient") /\ Proves(d.lenient)
+TSDer2 == /\ IsEvent("s_write") /\ Rec[l].label = "TsReqPubKeyAuth" /\ phase = "nlaWait2"
+          /\ LET d == Dec[Rec[l].blob] IN
+             \/ SNla(2, Proves(d))
+             \/ ProvesLeniently(d) /\ SNla(2, TRUE)
+          /\ UNCHANGED nla
+\* round 3: the sealed credentials (second client message of the cipher stream), C17 mode table:
+\* restricted admin or blank credentials empty the TSPasswordCreds, otherwise the configured strings
+CredStr(cps) == IF cfg.admin \/ cfg.blank THEN <<>> ELSE IF nla.unicode THEN Utf16LE(cps) ELSE Utf8(cps)
+TCDer3 == /\ IsEvent("c_der")
+          /\ LET d == Dec[Rec[l].blob] IN
+             /\ Rec[l].chan = link /\ d.ok /\ d.round = 3
+             /\ LET u == Unwrap(nla.c2s, d.authInfo) IN
+                /\ u.ok
+                /\ LET c == NW!DecTsCredentials(u.plain) IN
+                   /\ c.ok
+                   /\ c.domain = CredStr(cfg.domainCps) /\ c.user = CredStr(cfg.userCps)
+                   /\ c.password = (IF cfg.hash THEN CredStr(<<>>) ELSE CredStr(cfg.passwordCps))
+                /\ nla' = [nla EXCEPT !.c2s = u.ctx]
+             /\ CNla(3)
+TCDer == TCDer1 \/ TCDer2 \/ TCDer3
+TSDer == TSDer1 \/ TSDer2
 \* observations of the reference server that carry no protocol step
-TNote == (IsEvent("nla_keys") \/ IsEvent("nla_creds") \/ IsEvent("nla_note")) /\ UNCHANGED allvars
+TNote == (IsEvent("nla_keys") \/ IsEvent("nla_creds") \/ IsEvent("nla_note")) /\ UNCHANGED <<allvars, nla>>
 
 THello == IsEvent("c_hello") /\ CTlsHello
-TTls == IsEvent("tls") /\ TlsDone([name |-> Rec[l].ident, trusted |-> Trusted(Rec[l].ident)], Rec[l].hs = "ok")
+TTls == /\ IsEvent("tls") /\ TlsDone([name |-> Rec[l].ident, trusted |-> Trusted(Rec[l].ident)], Rec[l].hs = "ok")
+        /\ nla' = [nla EXCEPT !.cert = IF Rec[l].hs = "ok" THEN Rec[l].cert ELSE <<>>]
 \* the server observed the client's end: no further bytes
-TRest == IsEvent("c_rest") /\ Rec[l].b = <<>> /\ UNCHANGED allvars
+TRest == IsEvent("c_rest") /\ Rec[l].b = <<>> /\ UNCHANGED <<allvars, nla>>
 TClose == IsEvent("s_close") /\ SHangUp
 TRet == /\ IsEvent("ret") /\ Rec[l].api = "connect"
         /\ \/ Rec[l].res = "ok" /\ (CConnected \/ CConnectedPlain \/ CX224Up)
@@ -86,6 +136,30 @@ TSrvS == Session(TSrv) /\ Rec[l].chan = link
 TInputS == Session(TInput)
 TShutdownS == Session(TShutdown) /\ Rec[l].trailing = 0
 
-TNext == TReset \/ TCWrite \/ TCDer \/ TSDer \/ TNote \/ TSWrite \/ THello \/ TTls \/ TRest \/ TClose \/ TRet \/ TSrvS \/ TInputS \/ TShutdownS
+(***************************************************************************)
+(* C17, negative part: the password occurs nowhere but in the two allowed  *)
+(* containers.  Every raw byte the client wrote is searched (in TLA+) for  *)
+(* the UTF-8 and UTF-16LE forms of the configured password.                *)
+(***************************************************************************)
+Blobs == ndJsonDeserialize(IOEnv.BLOBS)
+Contains(hay, needle) == Len(needle) > 0 /\ \E i \in 1..(Len(hay) - Len(needle) + 1) : SubSeq(hay, i, i + Len(needle) - 1) = needle
+HasSecret(bytes) == Contains(bytes, Utf8(cfg.passwordCps)) \/ Contains(bytes, Utf16LE(cfg.passwordCps))
+\* containers that may carry the password: the Client Info PDU and the sealed TSCredentials (round 3)
+MayCarry(d) == d.ok /\ (d.kind = "ClientInfo" \/ (d.kind = "TsRequest" /\ d.round = 3))
+BlobClean(id) == MayCarry(Dec[id]) \/ ~HasSecret(Blobs[id].b)
+EventClean ==
+  LET e == Rec[l] IN
+  /\ (e.ev \in {"c_write", "c_der"}) => BlobClean(e.blob)
+  /\ (e.ev \in {"c_rest", "c_bytes", "c_partial"}) => ~HasSecret(e.b)
+  /\ (e.ev \in {"srv", "input", "shutdown"}) => \A k \in 1..Len(e.w) : BlobClean(e.w[k])
+\* the decrypted credentials carry the password only in the password field
+TCDer3Clean == IsEvent("c_der") => LET d == Dec[Rec[l].blob] IN
+   (d.ok /\ d.round = 3) => LET c == NW!DecTsCredentials(Unwrap(nla.c2s, d.authInfo).plain) IN ~HasSecret(c.domain) /\ ~HasSecret(c.user)
+
+TNext == \/ TReset \/ TCDer \/ TSDer \/ TNote \/ TTls \/ TRest
+         \/ ((TCWrite \/ TSWrite \/ THello \/ TClose \/ TRet \/ TSrvS \/ TInputS \/ TShutdownS) /\ UNCHANGED nla)
 TSpec == TInit /\ [][TNext]_tvars
+\* the same, additionally refusing any event whose bytes leak the password
+TSecretNext == TNext /\ (l <= Len(Rec) => EventClean)
+TSpecSecrets == TInit /\ [][TSecretNext]_tvars
 =============================================================================
